@@ -138,6 +138,7 @@ class Program:
         if resolve_renames:
             self._resolve_renamed_anchors()
             self._canonical_param_names()
+            self._canonical_field_names()
 
     def _canonical_param_names(self):
         """rules refer to a function's parameters by the names they had on the unchanged tree (`config.num_wires`, `inputs.proofs`);
@@ -155,6 +156,66 @@ class Program:
                 if b.locals[i].get("n") != nm:
                     self.renamed["%s#%d" % (b.path, i)] = "%s (was %s)" % (b.locals[i].get("n"), nm)
                     b.locals[i]["n"] = nm
+
+    def _canonical_field_names(self):
+        """rules name struct fields (`self.nullifier_index`, `dummy_proof_template`) as they were on the unchanged tree.  A non-`pub`
+        field that was merely renamed is the same field: when a struct keeps its path, its number of fields and every field's type in
+        order, renamed non-pub fields get their recorded names back everywhere (struct definition, projections, struct literals)"""
+        p = os.path.join(os.path.dirname(os.path.abspath(__file__)), "anchors.json")
+        if not os.path.exists(p):
+            return
+        tab = json.load(open(p)).get("adts", {})
+        ren = {}
+        for pth, old in tab.items():
+            a = self.adts.get(pth)
+            if a is None or len(a.get("variants", [])) != 1:
+                continue
+            cur = a["variants"][0]["fields"]
+            if len(cur) != len(old) or [f["ty"] for f in cur] != [o[1] for o in old]:
+                continue
+            m = {f["n"]: o[0] for f, o in zip(cur, old) if f["n"] != o[0] and o[2] != "pub" and f.get("vis") != "pub"}
+            if not m or set(m.values()) & set(f["n"] for f in cur):
+                continue   # nothing renamed, or an old name is in use for another field (a swap): leave alone
+            ren[pth] = m
+            for f in cur:
+                if f["n"] in m:
+                    self.renamed["%s.%s" % (pth, m[f["n"]])] = "%s (was %s)" % (f["n"], m[f["n"]])
+                    f["n"] = m[f["n"]]
+        if not ren:
+            return
+
+        def fix_place(pl):
+            for pr in pl.get("p", []):
+                if isinstance(pr, dict) and "f" in pr and pr.get("o") in ren and pr.get("n") in ren[pr["o"]]:
+                    pr["n"] = ren[pr["o"]][pr["n"]]
+
+        def fix_op(o):
+            if isinstance(o, dict):
+                pl = o.get("c") or o.get("m")
+                if pl:
+                    fix_place(pl)
+        for b in self.bodies.values():
+            for blk in b.blocks:
+                for st in blk["s"]:
+                    if isinstance(st.get("d"), dict):
+                        fix_place(st["d"])
+                    r = st.get("r") or {}
+                    for k in ("a", "b"):
+                        fix_op(r.get(k))
+                    if isinstance(r.get("p"), dict):
+                        fix_place(r["p"])
+                    for o in r.get("ops", []) or []:
+                        fix_op(o)
+                    if r.get("k") == "agg" and r["ak"].get("t") == "adt" and r["ak"]["adt"] in ren:
+                        r["ak"]["fields"] = [ren[r["ak"]["adt"]].get(n, n) for n in r["ak"]["fields"]]
+                t = blk["t"]
+                if t["k"] == "call":
+                    for o in t["args"]:
+                        fix_op(o)
+                    if isinstance(t.get("dest"), dict):
+                        fix_place(t["dest"])
+                elif t["k"] == "switch":
+                    fix_op(t["d"])
 
     def _resolve_renamed_anchors(self):
         """A private function that the rule modules name (rules/anchors.json, generated from the unchanged tree) may have been renamed
